@@ -687,6 +687,9 @@ pub fn corpus() -> Vec<Scenario> {
         Scenario { name: "repeated-revocation-reaches-new-towers-a".into(), towers: 3, opts: o, events: vec![Register(0), Notify(0), Register(1), Register(2), Notify(0), Notify(1), Restart] },
         Scenario { name: "repeated-revocation-reaches-new-towers-b".into(), towers: 3, opts: o, events: vec![Register(1), Add(1, Reject), Notify(0), Register(0), Register(2), Notify(0), Restart] },
         Scenario { name: "repeated-revocation-reaches-new-towers-c".into(), towers: 3, opts: o, events: vec![Register(2), Notify(0), Notify(1), Register(0), Register(1), Notify(1), Notify(0), Restart] },
+        // a tower caught lying on the notification path (nothing pending, no retrier) is registered again with a receipt
+        // that extends the subscription: it stays flagged and is sent nothing more
+        sc("misbehaving-tower-registered-again", vec![Register(0), Register(1), Add(0, BadSig), Notify(0), Add(0, Accept), Register(0), Notify(1), Restart, Register(0), Notify(2)]),
         sc("kill-with-pending", vec![Register(0), Register(1), Down(0, true), Notify(0), Notify(1), Restart, Down(0, false), Restart, Notify(2)]),
         sc("register-replies", vec![PEv::Reg(0, RegMode::BadSig), Register(0), PEv::Reg(0, RegMode::NonJson), Register(0), PEv::Reg(0, RegMode::ApiError), Register(0), PEv::Reg(0, RegMode::Accept), Register(0), PEv::Reg(0, RegMode::Same), Register(0), PEv::Reg(0, RegMode::SameExpiry), Register(0), Down(0, true), Register(0), Notify(0)]),
         Scenario { name: "auto-retry-delivers".into(), towers: 1, opts: (2, 3, 1), events: vec![Register(0), Down(0, true), Notify(0), Notify(1), Down(0, false), AwaitDelivered(0, 14)] },
